@@ -122,20 +122,15 @@ func (c *ChainIndex[T]) UpdateLastAccepted(ctx context.Context, blk T) error {
 		return batch.Write()
 	}
 
-	deleteBlkID, err := c.GetBlockIDAtHeight(ctx, expiryHeight)
+	// Remove every stored block at or below expiryHeight (genesis excepted). While blocks are accepted at
+	// consecutive heights this is exactly the block at expiryHeight. After state sync or historical backfill
+	// that block may never have been stored, and older blocks may have been left behind below a height gap.
+	lastDeletedHeight, err := c.deleteBlocksBelow(ctx, batch, expiryHeight+1)
 	if err != nil {
 		return err
 	}
-	if err = errors.Join(
-		batch.Delete(prefixBlockKey(expiryHeight)),
-		batch.Delete(prefixBlockIDHeightKey(deleteBlkID)),
-		batch.Delete(prefixBlockHeightIDKey(expiryHeight)),
-	); err != nil {
-		return err
-	}
-	c.metrics.deletedBlocks.Inc()
 
-	if expiryHeight%c.config.BlockCompactionFrequency == c.compactionOffset {
+	if lastDeletedHeight > 0 && expiryHeight%c.config.BlockCompactionFrequency == c.compactionOffset {
 		go func() {
 			start := time.Now()
 			if err := c.db.Compact([]byte{blockPrefix}, prefixBlockKey(expiryHeight)); err != nil {
@@ -229,47 +224,10 @@ func (c *ChainIndex[T]) cleanupOnStartup(ctx context.Context) error {
 		zap.Uint64("thresholdHeight", thresholdHeight),
 		zap.Uint64("acceptedBlockWindow", c.config.AcceptedBlockWindow))
 
-	it := c.db.NewIteratorWithPrefix([]byte{blockHeightIDPrefix})
-	defer it.Release()
-
 	batch := c.db.NewBatch()
-	var lastDeletedHeight uint64
-
-	for it.Next() {
-		key := it.Key()
-		height := extractBlockHeightFromKey(key)
-
-		// Nothing to delete after the threshold height
-		if height >= thresholdHeight {
-			break
-		}
-
-		// Skip if:
-		// Block is at genesis height (0)
-		if height == 0 {
-			continue
-		}
-
-		deleteBlkID, err := c.GetBlockIDAtHeight(ctx, height)
-		if err != nil {
-			return err
-		}
-
-		if err = errors.Join(
-			batch.Delete(prefixBlockKey(height)),
-			batch.Delete(prefixBlockIDHeightKey(deleteBlkID)),
-			batch.Delete(prefixBlockHeightIDKey(height)),
-		); err != nil {
-			return err
-		}
-		c.metrics.deletedBlocks.Inc()
-
-		// Keep track of the last height we deleted
-		lastDeletedHeight = height
-	}
-
-	if err := it.Error(); err != nil {
-		return fmt.Errorf("iterator error during cleanup: %w", err)
+	lastDeletedHeight, err := c.deleteBlocksBelow(ctx, batch, thresholdHeight)
+	if err != nil {
+		return err
 	}
 
 	// Write all the deletions
@@ -290,6 +248,51 @@ func (c *ChainIndex[T]) cleanupOnStartup(ctx context.Context) error {
 	}
 
 	return nil
+}
+
+// deleteBlocksBelow adds the deletion of every stored block with 0 < height < thresholdHeight to [batch]
+// and returns the height of the last block deleted (0 if there was none). Genesis is never deleted.
+func (c *ChainIndex[T]) deleteBlocksBelow(ctx context.Context, batch database.Batch, thresholdHeight uint64) (uint64, error) {
+	it := c.db.NewIteratorWithPrefix([]byte{blockHeightIDPrefix})
+	defer it.Release()
+
+	var lastDeletedHeight uint64
+	for it.Next() {
+		key := it.Key()
+		height := extractBlockHeightFromKey(key)
+
+		// Stop once we reach the threshold (keys are ordered by height)
+		if height >= thresholdHeight {
+			break
+		}
+
+		// Skip genesis block (height 0)
+		if height == 0 {
+			continue
+		}
+
+		deleteBlkID, err := c.GetBlockIDAtHeight(ctx, height)
+		if err != nil {
+			return 0, err
+		}
+
+		if err = errors.Join(
+			batch.Delete(prefixBlockKey(height)),
+			batch.Delete(prefixBlockIDHeightKey(deleteBlkID)),
+			batch.Delete(prefixBlockHeightIDKey(height)),
+		); err != nil {
+			return 0, err
+		}
+		c.metrics.deletedBlocks.Inc()
+
+		// Keep track of the last height we deleted
+		lastDeletedHeight = height
+	}
+
+	if err := it.Error(); err != nil {
+		return 0, fmt.Errorf("iterator error while deleting blocks: %w", err)
+	}
+	return lastDeletedHeight, nil
 }
 
 func prefixBlockKey(height uint64) []byte {
